@@ -43,6 +43,50 @@ def name_of(mc, proto):
     return None
 
 
+def second_query_after_failure(mc, version, first_mode, seed):
+    run = Run(seed=seed)
+    obs = {'status': [], 'ping': []}
+
+    def factory(idx, sess):
+        sc = TracingScript(run, Profile(version), [])
+        if idx == 0:
+            sc.steps = [('expect', 2), ('close',)]          # the first attempt meets a server that hangs up
+        else:
+            sc.steps = [('expect', 2), ('send', sc.prof.status_response(P.status_json(protocol=version, name='again'))),
+                        ('expect', 3), ('send', lambda s: s.prof.status_pong(s.parsed[2].get('time', 0)))]
+        return sc
+    run.serve(factory)
+    marks = {}
+
+    def scenario(run):
+        c = run.make_connection(allowed_versions={version})
+        try:
+            (c.status if first_mode == 'status' else c.connect)()
+        except Exception:       # noqa
+            pass
+        for t in list(run.installed.started):
+            run.sched.yield_point(blocked_on=lambda t=t: t._vt.finished)
+        marks['exits'], marks['errors'] = run.exits, len(run.errors)
+        c.status(handle_status=lambda d: obs['status'].append(d), handle_ping=lambda ms: obs['ping'].append(ms))
+        for t in list(run.installed.started):
+            run.sched.yield_point(blocked_on=lambda t=t: t._vt.finished)
+        marks['socket'] = c.socket
+    run.go(scenario)
+    if run.outcome != 'done':
+        return 'execution ended as %s' % run.outcome
+    if marks.get('errors', 0) < 1:
+        return 'the first attempt reported no error'
+    if len(run.errors) != marks['errors']:
+        return 'the second query reported an error: %r' % (run.errors[-1],)
+    if len(obs['status']) != 1 or len(obs['ping']) != 1:
+        return 'status handler ran %d times, ping handler %d times' % (len(obs['status']), len(obs['ping']))
+    if run.exits - marks['exits'] != 1:
+        return 'the exit callback ran %d times for the second query' % (run.exits - marks['exits'])
+    if marks.get('socket') is not None:
+        return 'the connection was not closed'
+    return None
+
+
 def PRE_OF(mc, k):
     return (1 << 30) | k
 
@@ -288,6 +332,18 @@ def run(chk):
             if n in (5, 900):
                 chk.sample({'scenario': {k: row[k] for k in ('mode', 'allowed', 'initial', 'srv', 'hs', 'hp')},
                             'expected': {k: row[k] for k in ('tcp', 'frames', 'outcome')}, 'map': m})
+    # ---- a status query on a Connection object whose previous attempt failed: it is a query like any other (status
+    #      delivered once, connection closed, exit callback run once)
+    for j in range(8 if chk.tier == 'quick' else 60):
+        v = [47, 340, 757, 404][j % 4]
+        first_mode = ('status', 'connect')[j % 2]
+        what = second_query_after_failure(mc, v, first_mode, chk.seed * 211 + j)
+        chk.traces += 1
+        chk.case(('requery', j))
+        if what:
+            chk.violation('status:after-failed-attempt', 'a %s() that failed, then status() on the same Connection (protocol %d): %s'
+                          % (first_mode, v, what), {'version': v, 'first': first_mode})
+
     # ---- the same scenarios after the table of supported versions has been changed at run time, the documented way
     #      (edit SUPPORTED_MINECRAFT_VERSIONS, call initglobals()): one known version becomes supported, one is withdrawn
     saved = dict(mc.SUPPORTED_MINECRAFT_VERSIONS)
